@@ -136,7 +136,7 @@ def run(prop, tier, seed):
     # ---- 2. histories with expected projections
     t0 = time.time()
     # C37_clonedeep: histories that grow the original (up to 4 inserts incl. duplicates) before cloning it once
-    cfgs = ["C37.cfg", "C37_clonedeep.cfg"] if quick else ["C37_thorough.cfg", "C37_slots3.cfg", "C37_clonedeep.cfg"]
+    cfgs = ["C37.cfg", "C37_clonedeep.cfg", "C37_regrow.cfg"] if quick else ["C37_thorough.cfg", "C37_slots3.cfg", "C37_clonedeep.cfg", "C37_regrow.cfg"]
     cases, gen_states, gen_trans = [], 0, 0
     seen = set()
     for cfg in cfgs:
